@@ -305,4 +305,21 @@ META["C05"] = {
     "assumptions": ["helper corpus bounded as listed"],
 }
 
+META["C06"] = {
+    "level": "exploration",
+    "level_text": "Bounded contract check on the real lowering: ~140 single-for comprehension / "
+    "generator lambdas (7 element expressions x 0..3 if-clauses in every order, nested in element / "
+    "iterable / condition position and inside operator lambdas, targets colliding with outer names) "
+    "evaluated with the reference semantics against CPython evaluating the comprehension itself; 5 "
+    "dataclass / NamedTuple models x every call shape (positional counts, keyword subsets in every "
+    "order, unknown / surplus / repeated arguments) against inspect.Signature.bind; tuple targets "
+    "refused.",
+    "level_note": "Bounded stand-in; the loop-invariant proof of convert_call_to_dict / "
+    "resolve_generator planned in DESIGN §4 C06 is not in this build.",
+    "technique": "bounded contract check of the sugar-lowering contracts, oracles = CPython evaluating the comprehension and inspect.Signature.bind (labelled stand-in)",
+    "p_keys": False,
+    "explanation": "bounded only",
+    "assumptions": ["comprehension / class-model corpus bounded as stated"],
+}
+
 NOT_APPLICABLE = {}
